@@ -167,8 +167,11 @@ def run(repo: Repo, rep: Report, tier: str) -> None:
             rep.check(ok, "one-per-call", f"{m.name.replace('pynetdicom.', '')}.{q}", enclosing(c, (ast.stmt,)), "a second reader of the association's socket would steal bytes from the PDU stream", mod=m, node=c)
     rep.floor("socket read sites", n_sock, 3)
     check_gap_tolerance(repo, rep)
+    from ..delegate import delegate as _delegate
+    _delegate(repo, rep, tier, "C08", ("queue-waits", "timeout-propagation"), "gap-tolerant", "a wait for the peer's PDU gives up earlier than the configured timeout allows (a placeholder such as Timer.remaining's 1 s for 'no timeout'): a PDU that arrives in two TCP segments with a pause inside the configured limits is never answered")
     rep.rule("ready-probe", "the readiness probe sees TLS-buffered data on every SSLSocket, whichever side wrapped it")
     check_ready_probe(repo, rep, "ready-probe")
+    check_readable_is_ready(repo, rep, "ready-probe")
 
 
 def check_gap_tolerance(repo: Repo, rep: Report) -> None:
@@ -257,6 +260,60 @@ def check_ready_probe(repo: Repo, rep: Report, rule: str) -> None:
             early = [i for i in walk_no_nested(fn) if isinstance(i, ast.If) and norm(i.test) in ("ready", "bool(ready)") and i.lineno < r.lineno and i.body and isinstance(i.body[-1], ast.Return) and isinstance(i.body[-1].value, ast.Constant) and i.body[-1].value.value is True]
             okr = bool(early)
         rep.check(okr, rule, fq, r if r is not None else "return bool(ready) or bool(pending)", "buffered TLS data must make the socket ready in addition to, not instead of, select()", mod=tr, node=c)
+
+
+def check_readable_is_ready(repo: Repo, rep: Report, rule: str) -> None:
+    """select() reporting the socket readable means: bytes have arrived, or the peer has closed / reset the
+    connection. Either way the reactor has to read - that is how a short header, a FIN in the middle of a PDU
+    and a reset become Evt17. `ready` may add reasons to read (TLS-buffered data) but must never answer False
+    once select() said readable: a probe that waits for 'enough' bytes never sees the close that arrives
+    1-5 bytes into a header, and the association stays established for ever."""
+    from ..cfg import path_summaries
+
+    tr = repo.mod("transport")
+    ci = repo.cls("transport", "AssociationSocket")
+    fn = ci.getters.get("ready")
+    if fn is None:
+        rep.defer("transport.AssociationSocket.ready vanished")
+        return
+    fq = "transport.AssociationSocket.ready"
+    sel = [s_ for s_ in walk_no_nested(fn) if isinstance(s_, ast.Assign) and isinstance(s_.value, ast.Call) and dotted(s_.value.func) == "select.select"]
+    if len(sel) != 1 or not isinstance(sel[0].targets[0], (ast.Tuple, ast.List)) or not isinstance(sel[0].targets[0].elts[0], ast.Name):
+        rep.defer(f"{fq}: `readable, _, _ = select.select(..)` not found")
+        return
+    rd = sel[0].targets[0].elts[0].id
+    truthy = {rd, f"bool({rd})", f"len({rd}) > 0", f"{rd} != []"}
+    n = 0
+    for ps in path_summaries(fn, body=body_nodoc(fn), may_raise=lambda n_: False):
+        if ps.raised or ps.ret is None or not any(st_ is sel[0] for st_ in ps.stmts):
+            continue
+        known_falsy = False
+        for t_, taken in ps.conds:
+            atoms = [t_]
+            if isinstance(t_, ast.BoolOp):
+                # `not ready or X` false => ready truthy; `ready and X` true => ready truthy: only a *sufficient* sign of falsy matters
+                if isinstance(t_.op, ast.Or) and not taken:
+                    atoms = list(t_.values)
+                    taken_each = False
+                elif isinstance(t_.op, ast.And) and taken:
+                    atoms = list(t_.values)
+                    taken_each = True
+                else:
+                    continue
+            else:
+                taken_each = taken
+            for a_ in atoms:
+                txt = norm(a_)
+                if (txt in truthy and not taken_each) or (txt in {f"not {x}" for x in truthy} and taken_each):
+                    known_falsy = True
+        if known_falsy:
+            continue
+        n += 1
+        v = ps.ret
+        parts = list(v.values) if isinstance(v, ast.BoolOp) and isinstance(v.op, ast.Or) else [v]
+        ok = any(norm(p_) in truthy or (isinstance(p_, ast.Constant) and p_.value is True) for p_ in parts)
+        rep.check(ok, rule, fq, f"return {norm(v)[:60]} (line {getattr(v, 'lineno', '?')})", "on a path where select() may have reported the socket readable `ready` answers with something that can be False: readable also means 'the peer closed or reset the connection' - a probe that holds off until enough bytes are queued never reads the close that arrives 1-5 bytes into a PDU header, so no Evt17 is raised, nothing aborts and the association stays established", mod=tr, node=v)
+    rep.floor("returns of `ready` reachable with a readable socket", n, 1)
 
 
 def check_header_guard(repo: Repo, rep: Report, rule: str) -> None:
